@@ -281,6 +281,74 @@ def check_optional_arithmetic(ctx, funcs, rule="NUL-arith"):
   return n
 
 
+def _assigns_in_every_branch(st, target):
+  """True when `st` is an if/elif/else chain whose every leaf branch assigns `target`."""
+  if not isinstance(st, ast.If) or not st.orelse:
+    return False
+
+  def leaf_ok(body):
+    if len(body) == 1 and isinstance(body[0], ast.If) and body[0].orelse:
+      return leaf_ok(body[0].body) and leaf_ok(body[0].orelse)
+    return any(isinstance(x, ast.Assign) and unparse(x.targets[0]) == target for x in body)
+  return leaf_ok(st.body) and leaf_ok(st.orelse)
+
+
+def check_timing_arithmetic(ctx):
+  """FIN-timing: the statements that combine begin / dur / end are evaluated over a grid of small
+  rational values (and absent attributes) and compared with TTML2 timing (section 12.4 / SMIL):
+  begin is relative to the implicit begin; end = min(begin + dur, implicit begin + end); with one of
+  dur / end absent the other alone; with both absent the implicit end."""
+  import itertools
+  from fractions import Fraction as F
+  from ..consteval import FuncEval, NotConst, Raised, _CallingConstEval
+  ix = ctx.ix
+  f = ix.func(f"{EL}:ContentElement.ParsingContext.process")
+  ctx.unit(f.module)
+  fe = FuncEval(ix)
+  chains = [st for st in f.node.body if _assigns_in_every_branch(st, "self.desired_end")]
+  if len(chains) != 1:
+    raise AnalysisError(f"{f.qualname}: expected one if-chain assigning self.desired_end in every branch, found {len(chains)}")
+  begins = [st for st in f.node.body if isinstance(st, ast.Assign) and unparse(st.targets[0]) == "self.desired_begin"]
+  if len(begins) != 1:
+    raise AnalysisError(f"{f.qualname}: expected one assignment of self.desired_begin, found {len(begins)}")
+
+  def run_block(stmts, env):
+    ce = _CallingConstEval(ix, fe, f, 0, None)
+    e = dict(env)
+    fe._block(ce, f, stmts, e)
+    return e
+  bad, n = [], 0
+  try:
+    for ib, eb in itertools.product((F(0), F(5)), (None, F(0), F(3, 2))):
+      env = run_block(begins, {"self.implicit_begin": ib, "self.explicit_begin": eb})
+      n += 1
+      want = ib + (eb if eb is not None else 0)
+      if env.get("self.desired_begin") != want:
+        bad.append(f"implicit begin {ib}, begin={eb}: desired begin {env.get('self.desired_begin')}, TTML gives {want}")
+    ctx.check(not bad, "FIN-timing", f"{f.qualname}|begin is relative to the implicit begin", ctx.where(f.module, begins[0]), f"{n} value combinations agree with TTML timing",
+              "begin resolution: " + "; ".join(bad[:3]))
+    bad, n = [], 0
+    for db, ib, dur, end, ie in itertools.product((F(0), F(2)), (F(0), F(1)), (None, F(3), F(10)), (None, F(4), F(20)), (None, F(7))):
+      if db < ib:
+        continue
+      env = run_block(chains, {"self.desired_begin": db, "self.implicit_begin": ib, "self.explicit_dur": dur, "self.explicit_end": end, "self.implicit_end": ie})
+      n += 1
+      if dur is not None and end is not None:
+        want = min(db + dur, ib + end)
+      elif dur is not None:
+        want = db + dur
+      elif end is not None:
+        want = ib + end
+      else:
+        want = ie
+      if env.get("self.desired_end") != want:
+        bad.append(f"begin at {db} (implicit begin {ib}), dur={dur}, end={end}, implicit end {ie}: desired end {env.get('self.desired_end')}, TTML gives {want}")
+    ctx.check(not bad, "FIN-timing", f"{f.qualname}|end = min(begin + dur, implicit begin + end), else the one given, else the implicit end", ctx.where(f.module, chains[0]),
+              f"{n} value combinations agree with TTML timing", "end resolution: " + "; ".join(bad[:3]) + (f" (+{len(bad) - 3} more)" if len(bad) > 3 else ""))
+  except (NotConst, Raised) as e:
+    raise AnalysisError(f"{f.qualname}: the timing statements could not be evaluated over the finite grid ({e})")
+
+
 def run(ctx):
   ix = ctx.ix
   ty = Typer(ix)
@@ -297,3 +365,5 @@ def run(ctx):
   check_inheritance(ctx)
   na = check_optional_arithmetic(ctx, common.funcs(ctx, [EL]))
   ctx.floor("NUL-arith", "arithmetic uses of optional temporal fields", na, 4)
+  check_timing_arithmetic(ctx)
+  common.check_history_independence(ctx, ["ttconv.imsc.reader", "ttconv.imsc.elements", "ttconv.imsc.attributes", "ttconv.imsc.utils", "ttconv.imsc.style_properties", "ttconv.imsc.namespaces", "ttconv.utils", "ttconv.model", "ttconv.style_properties"])
